@@ -1325,7 +1325,12 @@ class SyncedStackedTransforms(StackedTransforms):
 
     def push(self, captures):
         super().push(captures)
-        self._apply(self.target)
+        try:
+            self._apply(self.target)
+        except Exception:
+            # The function cannot be transformed: do not count this push
+            super().pop(captures)
+            raise
 
     def pop(self, captures):
         super().pop(captures)
